@@ -237,7 +237,7 @@ End Frag.
 (* the guard of the preservation theorem, per definition and per program *)
 Definition def_guard (p : fcprog) (d : fdef) : bool :=
   frag p (fdbody d) && ws (compile_ctx (fdctx d)) (fdbody d) && nocap (fdbody d)
-  && (if String.eqb (fdname d) "main" then data_ty p (fterm_type (fdbody d)) else true)
+  && (if String.eqb (fdname d) "main" then data_ty p (fterm_type (fdbody d)) && ctx_data p (fdctx d) else true)
   && kd p (fdbody d) && Bool.eqb (tkind p (fdbody d)) (f_is_codata p (fdret d)).
 Definition prog_guard (p : fcprog) : bool := forallb (def_guard p) (fcpdefs p).
 
@@ -245,7 +245,7 @@ Definition prog_guard (p : fcprog) : bool := forallb (def_guard p) (fcpdefs p).
 (* the program guard in terms of the Barendregt condition *)
 Definition def_guard_b (p : fcprog) (d : fdef) : bool :=
   frag p (fdbody d) && ws (compile_ctx (fdctx d)) (fdbody d)
-  && (if String.eqb (fdname d) "main" then data_ty p (fterm_type (fdbody d)) else true)
+  && (if String.eqb (fdname d) "main" then data_ty p (fterm_type (fdbody d)) && ctx_data p (fdctx d) else true)
   && kd p (fdbody d) && Bool.eqb (tkind p (fdbody d)) (f_is_codata p (fdret d)).
 Definition frag_prog (p : fcprog) : bool := forallb (def_guard_b p) (fcpdefs p).
 
